@@ -32,6 +32,17 @@ def _solve_one(job):
         s.set('random_seed', SEED % (2 ** 31))
         s.from_string(smt2)
         r = s.check()
+        if r == z3.unknown:
+            # second attempt with pure E-matching (no model-based quantifier instantiation): obligations whose many
+            # quantified hypotheses send MBQI astray are often immediate this way; `unsat` is `unsat` under any option
+            s = z3.Solver(ctx=ctx)
+            s.set('timeout', timeout)
+            s.set('random_seed', SEED % (2 ** 31))
+            s.set('smt.mbqi', False)
+            s.from_string(smt2)
+            r2 = s.check()
+            if r2 == z3.unsat:
+                r = r2
         verdict = str(r)
         model = None
         if r == z3.sat and want_model:
